@@ -21,6 +21,8 @@ var intrinsics = map[string]intrinsicFn{}
 const P = repoMod + "ion."
 const PC = repoMod + "cmd/ion-go."
 
+var cmdOnlyIntrinsics = map[string]bool{}
+
 func (e *Engine) used(name string) {
 	e.x.sh.mu.Lock()
 	e.x.sh.assumptions["stub:"+name]++
@@ -228,6 +230,7 @@ func init() {
 		e.used("cmd/ion-go ErrorReport.Append (ion.Encoder, reflection) = no-op")
 		return nil
 	}
+	cmdOnlyIntrinsics["(*"+strings.TrimSuffix(P, ".")+".Encoder).Encode"] = true
 	intrinsics["(*"+strings.TrimSuffix(P, ".")+".Encoder).Encode"] = func(e *Engine, f *frame, a []Value) Value {
 		// a harness may observe what is handed to the encoder: func vOnEncode(v interface{}) in the package under test
 		if fn := e.pkg.Func("vOnEncode"); fn != nil {
@@ -247,6 +250,30 @@ func init() {
 		n := e.concInt(e.term(a[0]), true, "MakeNoZero len", 0, int64(e.allocLimit), nil)
 		return &SliceV{arr: e.newArraySlot(types.Typ[types.Byte], n), len: n, cap: n}
 	}
+	// sort.Slice goes through internal/reflectlite (unsafe): insertion sort over the slice's own element slots, the
+	// less closure is the real one (a symbolic comparison forks)
+	sortSlice := func(e *Engine, f *frame, a []Value) Value {
+		sv, ok := a[0].(*Iface).v.(*SliceV)
+		if !ok {
+			e.x.goPanic(nil, nil, "sort.Slice of a non-slice")
+		}
+		less := a[1].(*FuncV)
+		for i := 1; i < sv.len; i++ {
+			for j := i; j > 0; j-- {
+				r := e.invoke(less, []Value{e.b.BVi(int64(j), 64), e.b.BVi(int64(j-1), 64)})
+				if !e.decide(e.term(r)) {
+					break
+				}
+				x, y := sv.arr.kid(sv.off+j), sv.arr.kid(sv.off+j-1)
+				vx, vy := e.load(x), e.load(y)
+				e.store(x, vy)
+				e.store(y, vx)
+			}
+		}
+		return nil
+	}
+	intrinsics["sort.Slice"] = sortSlice
+	intrinsics["sort.SliceStable"] = sortSlice
 	// assembly in internal/bytealg
 	intrinsics["internal/bytealg.IndexByteString"] = func(e *Engine, f *frame, a []Value) Value {
 		return e.indexByte(a[0].(*StrV).b, e.term(a[1]))
